@@ -45,6 +45,8 @@ def model_to_py(m):
                 out[d.name()] = v.as_long()
             elif z3.is_bv_value(v):
                 out[d.name()] = v.as_long()
+            elif z3.is_string_value(v):
+                out[d.name()] = v.as_string()
             elif z3.is_true(v):
                 out[d.name()] = True
             elif z3.is_false(v):
@@ -84,6 +86,35 @@ def discharge_z3(ob: Ob, timeout_ms=20000):
         ob.detail += f" z3: {s.reason_unknown()}"
 
 
+def refute_with_length_bound(ob: Ob, bound, timeout_ms=15000):
+    """A model is a model: search a counterexample among strings of length <= bound (never used to discharge)."""
+    g = ob.goal if not isinstance(ob.goal, bool) else z3.BoolVal(ob.goal)
+    s = z3.Solver()
+    s.set("timeout", timeout_ms)
+    for c in ob.pc:
+        s.add(c)
+    s.add(z3.Not(g))
+    seen = set()
+
+    def consts(t):
+        if t.get_id() in seen:
+            return
+        seen.add(t.get_id())
+        if z3.is_const(t) and t.decl().kind() == z3.Z3_OP_UNINTERPRETED and z3.is_string(t):
+            s.add(z3.Length(t) <= bound)
+        for c in t.children():
+            consts(c)
+    for a in s.assertions():
+        consts(a)
+    t0 = time.time()
+    r = s.check()
+    ob.solver_s += time.time() - t0
+    if r == z3.sat:
+        ob.status = REFUTED
+        ob.backend = "z3(length-bounded model search)"
+        ob.model = model_to_py(s.model())
+
+
 def to_smt2(ob: Ob):
     s = z3.Solver()
     for c in ob.pc:
@@ -100,6 +131,7 @@ def discharge_cvc5(ob: Ob, timeout_ms=20000):
     text = to_smt2(ob)
     slv = cvc5.Solver()
     slv.setOption("tlimit-per", str(timeout_ms))
+    slv.setOption("strings-exp", "true")
     slv.setLogic("ALL")
     ip = cvc5.InputParser(slv)
     ip.setStringInput(cvc5.InputLanguage.SMT_LIB_2_6, text, "ob")
@@ -187,7 +219,8 @@ class Check:
             self.trusted.append(text)
 
     # -- discharge ----------------------------------------------------------
-    def discharge(self, timeout_ms=20000):
+    def discharge(self, timeout_ms=None):
+        timeout_ms = timeout_ms or getattr(self, "z3_timeout_ms", 20000)
         for ob in self.obs:
             if ob.status is not None:
                 continue
@@ -198,13 +231,20 @@ class Check:
                 ob.detail += f" z3 exception: {e}"
             if ob.status == UNKNOWN:
                 try:
-                    res, dt = discharge_cvc5(ob, timeout_ms)
+                    res, dt = discharge_cvc5(ob, getattr(self, "cvc5_timeout_ms", 20000))
                     ob.solver_s += dt
                     if res == "unsat":
                         ob.status = DISCHARGED
                         ob.backend = "cvc5"
+                    elif res == "sat" and getattr(self, "cvc5_models", False):
+                        ob.status = REFUTED
+                        ob.backend = "cvc5"
+                        ob.model = getattr(self, "_last_cvc5_model", None) or {}
                 except Exception as e:
                     ob.detail += f" cvc5: {e}"
+        for ob in self.obs:
+            if ob.status == UNKNOWN and getattr(self, "string_refute_bound", 0):
+                refute_with_length_bound(ob, self.string_refute_bound)
         for ob in self.obs:
             if ob.status == REFUTED and ob.replay is not None and callable(ob.replay[1]):
                 try:
@@ -472,6 +512,9 @@ def _worker(a):
     sink = Check(prop, tier)
     try:
         mod = importlib.import_module(module)
+        for attr in ("z3_timeout_ms", "cvc5_timeout_ms", "cvc5_models", "string_refute_bound"):
+            if hasattr(mod, attr.upper()):
+                setattr(sink, attr, getattr(mod, attr.upper()))
         getattr(mod, func)(Loader(), sink, **kwargs)
         sink.discharge()
     except Exception:
